@@ -17,6 +17,8 @@ R.shape("ArgsFormat", _base_format="ref ArgsFormat?",
         _options="dict[str,ref Option]", _options_by_short_name="dict[str,ref Option]",
         _command_options="dict[str,ref CommandOption]", _command_options_by_short_name="dict[str,ref CommandOption]")
 R.uf("fmt_copt", ["ref ArgsFormat", "str"], "ref CommandOption")
+# the assumed view of get_option (parser_contracts) is the lookup including the bases, too
+R.contracts[F + "get_option"].requires = list(R.contracts[F + "get_option"].requires) + ["[C06] include_base"]
 MIRROR = []
 for _meth, _t1, _t2, _uf in (("has_option", "_options", "_options_by_short_name", "base_has_option"),
                              ("has_command_option", "_command_options", "_command_options_by_short_name", "base_has_command_option")):
@@ -27,6 +29,7 @@ for _meth, _t1, _t2, _uf in (("has_option", "_options", "_options_by_short_name"
 
 R.contract(
     F + "get_command_option", params={"name": "str", "include_base": "bool"}, returns="ref CommandOption",
+    requires=["[C06] include_base"],
     ensures=["base_has_command_option(self, name)", "result is fmt_copt(self, name)"],
     raises={"NoSuchOptionException": "not base_has_command_option(self, name)"},
     modifies=[], assumed=True, note="lookup in the (finished, immutable) base format, seen through its views",
